@@ -769,6 +769,51 @@ static uint64_t polyglot_ref(const ref::Pos& p)
     if (p.stm == ref::WHITE) k ^= RANDOM64[780];
     return k;
 }
+// the nine key vectors printed in the Polyglot book format description (independent of the engine)
+static void c18_vectors()
+{
+    static const struct
+    {
+        const char* fen;
+        uint64_t key;
+    } V[] = {
+        {"rnbqkbnr/pppppppp/8/8/8/8/PPPPPPPP/RNBQKBNR w KQkq - 0 1", 0x463b96181691fc9cULL},
+        {"rnbqkbnr/pppppppp/8/8/4P3/8/PPPP1PPP/RNBQKBNR b KQkq e3 0 1", 0x823c9b50fd114196ULL},
+        {"rnbqkbnr/ppp1pppp/8/3p4/4P3/8/PPPP1PPP/RNBQKBNR w KQkq d6 0 2", 0x0756b94461c50fb0ULL},
+        {"rnbqkbnr/ppp1pppp/8/3pP3/8/8/PPPP1PPP/RNBQKBNR b KQkq - 0 2", 0x662fafb965db29d4ULL},
+        {"rnbqkbnr/ppp1p1pp/8/3pPp2/8/8/PPPP1PPP/RNBQKBNR w KQkq f6 0 3", 0x22a48b5a8e47ff78ULL},
+        {"rnbqkbnr/ppp1p1pp/8/3pPp2/8/8/PPPPKPPP/RNBQ1BNR b kq - 0 3", 0x652a607ca3f242c1ULL},
+        {"rnbq1bnr/ppp1pkpp/8/3pPp2/8/8/PPPPKPPP/RNBQ1BNR w - - 0 4", 0x00fdd303c946bdd9ULL},
+        {"rnbqkbnr/p1pppppp/8/8/PpP4P/8/1P1PPPP1/RNBQKBNR b KQkq c3 0 3", 0x3c8123ea7b067637ULL},
+        {"rnbqkbnr/p1pppppp/8/8/P6P/R1p5/1P1PPPP1/1NBQKBNR b Kkq - 0 4", 0x5c3f9b829b279560ULL},
+    };
+    mc::Subspace sub;
+    sub.name = "published key vectors";
+    sub.bound = "the nine example keys of the Polyglot format description: golden table and engine must both reproduce them";
+    for (auto& v : V)
+    {
+        ref::Pos p;
+        ref::parse_fen(v.fen, p);
+        if (polyglot_ref(p) != v.key)
+        {
+            fprintf(stderr, "golden Random64 table does not reproduce the published key of %s\n", v.fen);
+            exit(2);
+        }
+        Position e{std::string(v.fen)};
+        if (PolyglotBook::hash(e) != v.key) R.violation("C18:published_vector", wit(p).u("engine", PolyglotBook::hash(e)).u("spec", v.key));
+        sub.states++;
+    }
+    // all 781 constants non-zero and pairwise distinct
+    std::set<uint64_t> d(RANDOM64, RANDOM64 + 781);
+    if (d.size() != 781 || d.count(0))
+    {
+        fprintf(stderr, "golden table has duplicate or zero constants\n");
+        exit(2);
+    }
+    sub.exhaustive = true;
+    R.subspaces.push_back(sub);
+}
+
 static void c18_state(Position& e, const ref::Pos& p)
 {
     uint64_t got = PolyglotBook::hash(e), want = polyglot_ref(p);
@@ -1057,6 +1102,59 @@ static int validate_seeds(const std::string& path)
     return bad ? 2 : 0;
 }
 
+// prints a long legal game from the start position (no capture, no threefold repetition, half-move
+// clock kept below 100 by quiet pawn steps): used by the C10 session enumerator as "spine"
+static int print_spine(int plies)
+{
+    ref::Pos p;
+    ref::parse_fen("rnbqkbnr/pppppppp/8/8/8/8/PPPPPPPP/RNBQKBNR w KQkq - 0 1", p);
+    std::map<std::string, int> seen;
+    seen[ref::identity(p)] = 1;
+    std::string line;
+    for (int ply = 0; ply < plies; ++ply)
+    {
+        std::vector<ref::Mv> legal;
+        ref::gen_legal(p, legal);
+        const ref::Mv* pick = nullptr;
+        ref::Pos t, best;
+        // reversible moves first (rotating start so that many different pieces wander), fresh positions only
+        int n = int(legal.size());
+        bool need_pawn = p.hmc >= 90;
+        for (int pass = 0; pass < 2 && !pick; ++pass)
+            for (int i = 0; i < n && !pick; ++i)
+            {
+                const ref::Mv& m = legal[size_t((i + ply * 7) % n)];
+                if (m.flags & (ref::F_CAPTURE | ref::F_CASTLE_K | ref::F_CASTLE_Q | ref::F_EP)) continue;
+                if (m.promo) continue;
+                bool pawn = ref::lower(p.b[m.from]) == 'p';
+                if (pawn && (m.flags & ref::F_DOUBLE)) continue;   // single steps only: more resets available
+                if ((pass == 0) != (need_pawn ? pawn : !pawn)) continue;
+                ref::make(p, m, t);
+                if (ref::in_check(t, t.stm)) continue;
+                if (seen[ref::identity(t)] >= 1) continue;
+                // do not walk a pawn into a capture-only future: keep pawns off ranks where they block each other
+                if (pawn)
+                {
+                    int r = ref::rankof(m.to);
+                    if (p.stm == ref::WHITE ? r > 3 : r < 4) continue;
+                }
+                // never leave a piece where the opponent could only move by capturing: harmless, captures are never chosen
+                pick = &m;
+                best = t;
+            }
+        if (!pick)
+        {
+            fprintf(stderr, "spine stuck at ply %d (hmc %d)\n", ply, p.hmc);
+            return 2;
+        }
+        line += (line.empty() ? "" : " ") + ref::uci(*pick);
+        p = best;
+        seen[ref::identity(p)]++;
+    }
+    printf("%s\n", line.c_str());
+    return 0;
+}
+
 static void run_lattice(const std::string& fen)
 {
     mc::Subspace sub;
@@ -1167,10 +1265,14 @@ int main(int argc, char** argv)
             run_lattice(parts[1]);
         else if (parts[0] == "line")
             run_line(parts[1], parts.size() > 2 ? parts[2] : "");
+        else if (parts[0] == "spine")
+            return print_spine(atoi(parts[1].c_str()));
         else if (parts[0] == "validate")
             return validate_seeds(parts[1]);
         else if (parts[0] == "encoding")
             c16_encoding();
+        else if (parts[0] == "vectors")
+            c18_vectors();
         else
         {
             fprintf(stderr, "unknown space %s\n", s.c_str());
